@@ -1,17 +1,17 @@
 #!/bin/sh
 # usage: tools/run_all_seeds.sh [pattern]  - applies every seeded/<ID>-k/patch.diff in a scratch worktree of /repo and runs
 # the owning check (quick) against it; writes seeded/RESULTS.md.  Seeds must give exit 1; refactorings must give exit 0.
-V="$(cd "$(dirname "$0")/.." && pwd)"; PAT="${1:-}"
+V="$(cd "$(dirname "$0")/.." && pwd)"; PAT="${1:-}"; SUF="${2:-}"   # PAT is a shell case pattern, e.g. "C0[1-5]-*"
 WT=$(mktemp -d /tmp/wt-allseeds-XXXX); rmdir "$WT"
 git -C /repo worktree add --detach -q "$WT" HEAD || exit 2
-OUT="$V/seeded/RESULTS.md"; echo "# Seed regression run ($(date -u +%Y-%m-%dT%H:%MZ), /repo $(git -C /repo log --format=%h -1))" > "$OUT"
+OUT="$V/seeded/RESULTS$SUF.md"; echo "# Seed regression run ($(date -u +%Y-%m-%dT%H:%MZ), /repo $(git -C /repo log --format=%h -1))" > "$OUT"
 echo "" >> "$OUT"; echo "| seed | expected | exit | result |" >> "$OUT"; echo "|---|---|---|---|" >> "$OUT"
 for d in "$V"/seeded/C*-*; do
-  s=$(basename "$d"); case "$s" in *"$PAT"*) ;; *) continue;; esac
+  s=$(basename "$d"); case "$s" in $PAT*) ;; *) continue;; esac
   id=${s%%-*}
   (cd "$WT" && git checkout -q -- . && git apply "$d/patch.diff") || { echo "| $s | exit 1 | - | patch does not apply any more (code moved on) |" >> "$OUT"; continue; }
-  (cd "$V" && FALCON_ROOT="$WT" timeout 3000 ./check "$id" --tier quick > /tmp/allseeds.log 2>&1); rc=$?
-  echo "| $s | exit 1 | $rc | $(grep -o 'violations=[0-9]* known=[0-9]* details=[0-9]*' /tmp/allseeds.log | tail -n 1) $(grep 'by clause' /tmp/allseeds.log | tail -n 1 | cut -c1-120) |" >> "$OUT"
+  (cd "$V" && FALCON_ROOT="$WT" timeout 3000 ./check "$id" --tier quick > /tmp/allseeds$SUF.log 2>&1); rc=$?
+  echo "| $s | exit 1 | $rc | $(grep -o 'violations=[0-9]* known=[0-9]* details=[0-9]*' /tmp/allseeds$SUF.log | tail -n 1) $(grep 'by clause' /tmp/allseeds$SUF.log | tail -n 1 | cut -c1-120) |" >> "$OUT"
 done
 (cd "$WT" && git checkout -q -- .)
 git -C /repo worktree remove --force "$WT"
